@@ -183,6 +183,15 @@ Proof.
 Qed.
 Print Assumptions C12_int_draws_in_range_in_every_history.
 
+(* "inclusive": both ends of the range are reached - lo for u = 0 and, for
+   ranges of up to 2^53 values, hi for the largest generator output 1 - 2^-53 *)
+Theorem C12_next_int_endpoints_reached :
+  forall lo hi : Z, lo <= hi ->
+    next_int_fixed lo hi 0 = OInt lo /\
+    (hi - lo + 1 <= two53 -> next_int_fixed lo hi (two53 - 1) = OInt hi).
+Proof. exact next_int_fixed_endpoints. Qed.
+Print Assumptions C12_next_int_endpoints_reached.
+
 (* The pinned tree computes the float product for every width: for a range
    wider than the largest float no integer is returned at all (OverflowError),
    so "in the requested range for every range" is false of it. *)
